@@ -69,7 +69,7 @@ const c17Step = 5 * time.Second
 // of them never hold the same state. Here the genesis bytes are produced once and fed to both apps.
 func c17Genesis(t *testing.T) (apps [2]*simapp.ElysApp) {
 	apps[0], apps[1] = simapp.InitiateNewElysApp(t), simapp.InitiateNewElysApp(t)
-	gs, valSet, _, _ := simapp.GenesisStateWithValSet(apps[0])
+	gs, valSet := detGenesisState(apps[0], 17)
 	stateBytes, err := json.MarshalIndent(gs, "", " ")
 	if err != nil {
 		t.Fatalf("c17: genesis: %v", err)
